@@ -35,6 +35,7 @@ package electricpb
 //@ // ---- the electric model's mode rules (C19, the clauses that do not depend on what a stored message contains) ----
 //@ property C19
 //@ pure func modeOf(m) = cast(m, *traits.ElectricMode)
+//@ pure func writeOptsOKe(opts) = forall i int :: 0 <= i && i < len(opts) ==> !isnil(opts[i]) && (istype(opts[i], resource.writeOptionFunc) ==> cast(opts[i], resource.writeOptionFunc) != nil)
 //@ pure func isMode(m) = istype(m, *traits.ElectricMode) && cast(m, *traits.ElectricMode) != nil
 //@ // the model as built by NewModel: resources present, the active-mode value and every stored mode are ElectricModes
 //@ pure func wfModel(m) = m != nil && m.activeMode != nil && m.activeMode.config != nil && !isnil(m.activeMode.config.clock) && isMode(m.activeMode.value) &&
@@ -57,7 +58,7 @@ package electricpb
 //@ // removed from the collection otherwise; what the collection's Delete decides is what the caller gets
 //@ func (*Model).deleteMode(id, opts) (err)
 //@   option locks caller
-//@   requires wfModel(recv) && heldW(recv.mu)
+//@   requires wfModel(recv) && heldW(recv.mu) && writeOptsOKe(opts)
 //@   track Get
 //@   track Delete
 //@   ensures [active-read] calls(Get) == old(calls(Get)) + 1 && lastheldW(Get, recv.mu)
@@ -66,7 +67,7 @@ package electricpb
 //@   replay [delete-verdict] ElectricDeleteAllowMissing()
 //@
 //@ func (*Model).DeleteMode(id, opts) (err)
-//@   requires wfModel(recv)
+//@   requires wfModel(recv) && writeOptsOKe(opts)
 //@   track deleteMode
 //@   ensures [under-lock] calls(deleteMode) == old(calls(deleteMode)) + 1 && lastheldW(deleteMode, recv.mu) && err == lastcall(deleteMode) && !held(recv.mu)
 //@
@@ -87,7 +88,7 @@ package electricpb
 //@ pure func keyOfModes(m, id) = m.modes.config.idInterceptor == nil ? id : m.modes.config.idInterceptor(id)
 //@
 //@ func (*Model).SetActiveMode(mode) (err)
-//@   requires wfModel(recv) && mode != nil
+//@   requires wfModel(recv) && mode != nil && mode != modeOf(recv.activeMode.value)     // the caller's own message, not the stored one
 //@   track Set
 //@   ensures [unknown] !old(has(recv.modes.byId, keyOfModes(recv, mode.Id))) ==> err != nil && calls(Set) == old(calls(Set))
 //@   ensures [unlocked] !held(recv.mu)
@@ -118,6 +119,6 @@ package electricpb
 //@ pure func atMostOneNormal(m) = forall a string, b string :: has(m.modes.byId, a) && has(m.modes.byId, b) && modeOf(m.modes.byId[a].body).Normal && modeOf(m.modes.byId[b].body).Normal ==> a == b
 //@ func (*Model).updateMode(mode, opts) (res, err)
 //@   option locks caller
-//@   requires wfModel(recv) && heldW(recv.mu) && mode != nil && atMostOneNormal(recv)
+//@   requires wfModel(recv) && heldW(recv.mu) && mode != nil && atMostOneNormal(recv) && writeOptsOKe(opts)
 //@   ensures [normal-unique] err == nil ==> atMostOneNormal(recv)
 //@   replay [normal-unique] ElectricUpdateSecondNormal()
